@@ -122,7 +122,7 @@ class Interp:
                     if isinstance(st.value, ast.Name) and st.value.id in g:
                         g[nm] = g[st.value.id]
                     elif nm not in g:
-                        g[nm] = Opaque(f"module constant {nm}")
+                        g[nm] = s._const_expr(st.value, g, nm)
             elif isinstance(st, ast.AnnAssign) and isinstance(st.target, ast.Name) and st.value is not None:
                 try:
                     g[st.target.id] = libmodel.const_value(ast.literal_eval(st.value))
@@ -132,6 +132,17 @@ class Interp:
                 s._scan_module(rel, st.body, g)
             elif isinstance(st, ast.If):
                 s._scan_module(rel, st.body, g)
+
+    def _const_expr(s, node, g, nm):
+        """module-level constant given by an arithmetic expression over literals and earlier constants (1 << 16, 2 * N_MAX, ...)."""
+        if all(isinstance(n, (ast.BinOp, ast.UnaryOp, ast.Constant, ast.Name, ast.operator, ast.unaryop, ast.expr_context)) for n in ast.walk(node)):
+            try:
+                st0 = St(); st0.env.update(g)
+                v = s.eval(node, st0)
+                if isinstance(v, X) and v.constval() is not None: return v
+            except Exception:
+                pass
+        return Opaque(f"module constant {nm}")
 
     # ------------------------------------------------------------------ classes
     def class_mro(s, cls_key):
@@ -589,6 +600,11 @@ class Interp:
             if isinstance(a, Arr) or isinstance(b, Arr):
                 return _arr_bool(op, a, b)
             return pv_apply(f, a, b)
+        if isinstance(op, (ast.LShift, ast.RShift)):
+            xa, xb = to_x(a), to_x(b)
+            if xa is not None and xb is not None and xa.as_int() is not None and xb.as_int() is not None and xb.as_int() >= 0:
+                return X.const(xa.as_int() << xb.as_int() if isinstance(op, ast.LShift) else xa.as_int() >> xb.as_int())
+            return Opaque("shift of non-constant integers")
         sym = {ast.Add: "+", ast.Sub: "-", ast.Mult: "*", ast.Div: "/", ast.Pow: "**",
                ast.FloorDiv: "//", ast.Mod: "%"}.get(type(op))
         if sym is None: return Opaque("operator " + type(op).__name__)
